@@ -262,6 +262,10 @@ theorem cst_lexM_modulo : (c : Cst) → c.lexM.filter keep = (c.lex.map normLex)
   | .app f cs _ a => by
     simp only [Cst.lexM, Cst.lex, List.map_append, List.filter_append, cst_lexM_modulo f, cst_lexM_modulo a,
       map_normLex_lexGC]
+  | .kw w c1 _ h c2 _ c3 _ b => by
+    simp only [Cst.lexM, Cst.lex, List.map_cons, List.map_append, List.filter_cons, List.filter_append,
+      cst_lexM_modulo h, cst_lexM_modulo b, map_normLex_lexGC]
+    simp [normLex, keep, isBindDelim]
 theorem items_lexM_modulo : (its : Items) → its.lexM.filter keep = (its.lex.map normLex).filter keep
   | .nil => rfl
   | .cmt _ t rest => by
@@ -280,7 +284,8 @@ theorem items_lexM_modulo : (its : Items) → its.lexM.filter keep = (its.lex.ma
 end
 
 /-- COMMENTS SURVIVE EXACTLY ONCE, IN ORDER, IN PLACE. For every well-formed file of the fragment
-    (containers, parentheses, function calls) in which no comment overtakes another (`File.orderOk`:
+    (containers, parentheses, function calls, `with e; body` with comments anywhere but in the three
+    gaps of the `with` itself) in which no comment overtakes another (`File.orderOk`:
     in item sequences, see `cex_comment_overtakes`; between function and argument of a call,
     `appOrderOk`, see `cex_call_comment_reordered`), the
     sequence of code tokens and comment tokens of the output — `lexOf` of the pieces — is the
@@ -374,6 +379,24 @@ example : callSample.flatten = "f /* a */\n  # b\n  ( /* p */ x # q\n)".toList :
 example : callSample.wf = true ∧ callSample.noLeadingWs = true ∧ callSample.orderOk = true := by decide
 example : (match callSample.parse with
     | .ok s => decide (lexOf s.rebuildP = callSample.items.lexM)
+    | _ => false) = true := by decide
+
+/-- `with` as a binding value, in parentheses and as a body, comments around and inside the parts -/
+def withSample : File :=
+  { items := .cmt [] "# h".toList (.elem "\n".toList
+      (.kw true [] " ".toList (.paren (.cmt [] "/* p */".toList (.elem " ".toList (.leaf .ident "a".toList) .nil)) [])
+        [] [] [] "\n\n  ".toList
+        (.set false [] (.bind " ".toList "x".toList [] " ".toList [] " ".toList
+          (.kw true [] " ".toList (.leaf .ident "b".toList) [] " ".toList [] " ".toList
+            (.list (.elem " ".toList (.leaf .ident "c".toList) (.cmt " ".toList "# e".toList .nil)) "\n".toList))
+          [(" ".toList, "/* v */".toList)] [] .nil) " ".toList))
+      (.cmt " ".toList "# t".toList .nil)),
+    endGap := "\n".toList }
+
+example : withSample.flatten = "# h\nwith (/* p */ a);\n\n  { x = with b ; [ c # e\n] /* v */; } # t\n".toList := by decide
+example : withSample.wf = true ∧ withSample.noLeadingWs = true ∧ withSample.orderOk = true := by decide
+example : (match withSample.parse with
+    | .ok s => decide (lexOf s.rebuildP = withSample.items.lexM)
     | _ => false) = true := by decide
 
 /-- a file with comments in every kind of gap of a binding; no comment overtakes another -/
